@@ -92,6 +92,7 @@ def run(tier):
     evals = 0
     nontrivial = set()
     corr = {'ok': 0, 'tie': 0, 'diff': 0}
+    corr_static = {'ok': 0, 'ok_with_tie_flag': 0, 'tie': 0, 'diff': 0, 'both_report_same_constraint': 0}
     oracle_viol = []
     diffs = []
     hist = {}
@@ -160,6 +161,19 @@ def run(tier):
                 corr[s] += 1
                 if s == 'diff':
                     diffs.append({'set': label, 'impl': impl, 'instance': L.ins_json(ins), 'replay_input': L.replay_text(ins), 'detail': det})
+            if ins['kind'] == 'S' and impl == 'vpsc' and rs:
+                # the static Solver against the extracted Vpsc/StaticModel.v (exact pairing heaps, time stamps, total order)
+                s, det = L.eval_corr_static(ins, rs, d)
+                mt = ((d or {}).get('t') or {}).get(rs[0]['op']) or {}
+                if s == 'ok' and mt.get('tie'):
+                    corr_static['ok_with_tie_flag'] += 1
+                else:
+                    corr_static[s] += 1
+                if s == 'ok' and mt.get('status') == 'throw_unsat':
+                    corr_static['both_report_same_constraint'] += 1
+                if s == 'diff':
+                    diffs.append({'set': label, 'impl': impl, 'instance': L.ins_json(ins), 'replay_input': L.replay_text(ins), 'detail': det,
+                                  'model': 'Vpsc/StaticModel.v'})
             if len(samples) < 4 and rs and len(ins['vs']) <= 5 and ('1' in rs[-1]['U'] or len(ins['ops']) > 2):
                 samples.append({'instance': L.ins_json(ins), 'impl': impl,
                                 'results': [{'op': r['op'], 'status': r['status'], 'x': r['xf'], 'active': r['A'], 'unsat': r['U']} for r in rs]})
@@ -202,8 +216,14 @@ def run(tier):
                     'exhaustive_note': 'set exhaustive-small: ' + ('1/7 of the n=2 family (rotating with the seed)' if quick else
                                        'all n=2 instances with desired in {-1,0,1,2}^2 and every constraint sequence of length<=3 over 2 ordered pairs x 4 gaps; '
                                        'n=3: 4 desired patterns x every sequence of length<=3 over 6 ordered pairs x 4 gaps'),
-                    'samples': samples, 'traces_validated_against_impl': sum(corr.values()),
-                    'correspondence': corr, 'input_histogram': hist,
+                    'samples': samples, 'traces_validated_against_impl': sum(corr.values()) + sum(corr_static[k] for k in ('ok', 'ok_with_tie_flag', 'tie', 'diff')),
+                    'correspondence': corr,
+                    'correspondence_static_solver': dict(corr_static, what='extracted Vpsc/StaticModel.v (shape-exact pairing heaps ordered by CompareConstraints, block / '
+                                                        'constraint time stamps, DFS total order, mergeLeft / mergeRight / split / refine with maxtries) vs vpsc::Solver on every '
+                                                        'static instance: normal return vs thrown UnsatisfiedConstraint incl. the index of the reported constraint, block partition and '
+                                                        'active flags exactly, positions to 1e-9*scale; ok_with_tie_flag = agreed although the model compared keys closer than 1e-7; '
+                                                        'tie = differed under that flag (not a difference)'),
+                    'input_histogram': hist,
                     'known_finding_hits': known_hits,
                     'model_invariants': {'states_evaluated': inv_states[0], 'ops_with_a_failing_state': inv_states[1],
                                          'what': 'VpscInvB.all_invb (book, act_inv, forest, trichotomy, block statistics A2>0 / sums; the statements proved in '
